@@ -135,7 +135,11 @@ func cliProp() engine.AnyProp {
 			var stderr bytes.Buffer
 			cmd := exec.Command(bin, args...)
 			cmd.Stderr = &stderr
-			runErr := cmd.Run()
+			runErr, stuck := engine.RunProgram(cmd)
+			if stuck {
+				o.Failf("indicator-sync %v never exits (asleep, no CPU time consumed for 30 s): %s", args, tail(stderr.String()))
+				return o
+			}
 			wantErr, partial, fresh := false, 0, 0
 			for _, a := range c.Assets {
 				requested := a.Named
